@@ -329,6 +329,9 @@ func detWorkload(t *sim.Tape) (ops []detOp, desc string) {
 		in := postscript.NewInterpreter()
 		in.MaxOps = psSafetyBudget
 		err := in.Execute(bytes.NewReader(hp.Src))
+		if hostileIteratesDict(hp.Src, psSafetyBudget) {
+			return "program iterates a dictionary: order left open by PostScript"
+		}
 		return dump.Err(err) + " " + dump.InterpNoDSC(in)
 	}})
 	ops = append(ops, detOp{name: "Font queries", run: func() string {
